@@ -192,11 +192,23 @@ def case_oob(rng, cs, cnt):
     s.update(dts[1])
     mode = rng.choice(["absent", "weights", "weights", "weights", "cash"])
     tol = rng.choice([0.01, 0.05, 0.2, 0.5])
+    # pending changes: the algo must judge the refreshed weights, not cached ones
+    pend = rng.choice(["none", "none", "inflow", "outflow", "allocate"])
+    if pend == "inflow":
+        s.adjust(rng.uniform(0.1, 0.6) * 1e6)
+    elif pend == "outflow":
+        s.adjust(-rng.uniform(0.05, 0.3) * 1e6)
+    elif pend == "allocate" and held:
+        s.allocate(rng.uniform(0.05, 0.2) * 1e6, child=rng.choice(held))
+    import copy as _copy
+    ref = _copy.deepcopy(s)
+    ref.update(ref.now)
+    live_w = {c: ref.children[c].weight for c in ref.children}
     s.temp = {}
     tg = {}
     if mode != "absent":
         for t in rng.sample(tk, rng.randint(0, n)):
-            cur = s.children[t].weight if t in s.children else 0.0
+            cur = live_w.get(t, 0.0)
             r = rng.random()
             if r < 0.4 and cur != 0:
                 tg[t] = cur * (1 + rng.uniform(-1.5, 1.5) * tol)
@@ -213,7 +225,7 @@ def case_oob(rng, cs, cnt):
         exp = False
         for c in s.children:
             if c in tg:
-                dev = abs(s.children[c].weight / tg[c] - 1)
+                dev = abs(live_w[c] / tg[c] - 1)
                 if abs(dev - tol) < 1e-9:
                     return None  # on the knife edge: either answer is defensible
                 if dev > tol:
@@ -228,7 +240,7 @@ def case_oob(rng, cs, cnt):
     if mode == "cash" and not exp:
         return None  # cash branch reached without raising: intended semantics not recoverable from the code, nothing asserted
     if bool(got) != exp:
-        return ("c13_oob", {"mode": mode, "tolerance": tol, "targets": tg, "weights": {c: s.children[c].weight for c in s.children}, "got": repr(got), "expected": exp})
+        return ("c13_oob", {"mode": mode, "tolerance": tol, "targets": tg, "weights": live_w, "pending": pend, "got": repr(got), "expected": exp})
     return None
 
 
